@@ -215,6 +215,8 @@ def check_step(m, op, cas, resp, silent, issued):
         if flags != it['flags']: raise Mismatch('%s: flags 0x%08x, stored 0x%08x (C01/C06/C07)' % (what, flags, it['flags']))
         if resp['cas'] == 0: raise Mismatch('C01: retrieval with CAS 0')
         if it['cas'] is not None and resp['cas'] != it['cas']: raise Mismatch('C02: retrieval reports CAS %d, acknowledged was %d' % (resp['cas'], it['cas']))
+        if it['cas'] is None and resp['cas'] in it['hist'] and it.get('counter_origin', True):
+            raise Mismatch('C02/C19: after a silent (quiet) mutation the item still carries CAS %d, which it carried before that mutation' % resp['cas'])
         it['cas'] = resp['cas']; it['hist'].add(resp['cas'])
         return
     if o in ('set', 'add', 'replace', 'append', 'prepend'):
@@ -316,6 +318,10 @@ def boundary_histories():
         H.append([dict(op='tick', n=100), s(exp=10), dict(op='tick', n=50), dict(op='flush', delay=5, quiet=q), dict(op='tick', n=1), dict(op='get', key=K)])
         H.append([s(), s(), dict(op='set', key=J, value=b'x', cas=2**64 - 1, quiet=q), s(), s(), s(), dict(op='set', key=K, value=b'LOST', cas='stale', quiet=q), dict(op='get', key=K)])
         H.append([s(), s(), dict(op='set', key=J, value=b'x', cas=2**64 - 2, quiet=q), s(), s(), s(), s(), dict(op='set', key=K, value=b'LOST', cas='stale', quiet=q), dict(op='get', key=K)])
+        # storing the same value again is a mutation like any other: new CAS, TTL restarted (also for the quiet variants)
+        H.append([s(quiet=q), dict(op='get', key=K), s(quiet=q), dict(op='get', key=K), dict(op='set', key=K, value=b'LOST', cas='stale', quiet=q), dict(op='get', key=K)])
+        H.append([s(exp=5, quiet=q), dict(op='tick', n=4), s(exp=5, quiet=q), dict(op='tick', n=3), dict(op='get', key=K), dict(op='tick', n=2), dict(op='get', key=K)])
+        H.append([s(exp=5, flags=9, quiet=q), dict(op='tick', n=4), dict(op='replace', key=K, value=b'v1', flags=9, exp=5, quiet=q), dict(op='tick', n=3), dict(op='get', key=K)])
         # a SMALL client-chosen CAS stored on an absent key must not pull the counter back below values already issued
         for small in (1, 2, 3):
             H.append([s(), s(), s(), s(), dict(op='set', key=J, value=b'x', cas=small, quiet=q), s(), s(), s(), s(), dict(op='set', key=K, value=b'LOST', cas='stale', quiet=q), dict(op='get', key=K)])
